@@ -74,6 +74,8 @@ type analysis struct {
 	regions  []*region
 	initLits map[types.Object][]*ast.FuncLit // local variables initialised with (an expression containing) function literals
 	initOf   map[types.Object]ast.Expr
+	sums     *summaries
+	named    []*types.Named
 	called   map[string]bool // "Type.Method" of the manager types invoked from worker code
 	decls    map[types.Object]*ast.FuncDecl
 }
@@ -504,8 +506,11 @@ func (v *visitor) call(c *ast.CallExpr) {
 			default:
 				if isManagerType(n) {
 					v.a.called[n[strings.LastIndex(n, ".")+1:]+"."+f.Sel.Name] = true
+					v.expr(f.X)
+					break
 				}
 				v.expr(f.X)
+				v.methodCallEffects(f, sel)
 			}
 		} else if id, ok := f.X.(*ast.Ident); ok {
 			if pn, isPkg := v.obj(id).(*types.PkgName); isPkg {
@@ -534,6 +539,35 @@ func (v *visitor) call(c *ast.CallExpr) {
 	}
 	for _, a := range c.Args {
 		v.expr(a)
+	}
+}
+
+// methodCallEffects: a method called on a shared object touches that object's fields (see summary.go).
+func (v *visitor) methodCallEffects(f *ast.SelectorExpr, sel *types.Selection) {
+	p := v.pathOf(f.X)
+	if !p.ok || len(p.idxs) > 0 || !v.isShared(p.root) {
+		return
+	}
+	fn, ok := sel.Obj().(*types.Func)
+	if !ok {
+		return
+	}
+	if fn.Pkg() != nil && (strings.HasSuffix(fn.Pkg().Path(), "/lib/parser") || strings.HasSuffix(fn.Pkg().Path(), "/lib/value")) {
+		return // syntax-tree nodes and values are immutable for the evaluator (property C14)
+	}
+	effs, ok := v.a.effectsOfCall(fn, sel.Recv())
+	if !ok {
+		return
+	}
+	for _, e := range effs {
+		path := p.path + "." + e.field
+		saved, savedR := v.guard, v.guardR
+		if e.guard != "" {
+			v.guard, v.guardR = p.path+"."+e.guard, false
+		}
+		v.add(f.Pos(), path, false, "", e.rw, kVar, "")
+		v.r.acc[len(v.r.acc)-1].how = "via method " + fn.Name()
+		v.guard, v.guardR = saved, savedR
 	}
 }
 
@@ -1019,6 +1053,17 @@ func prefixOf(q, p string) bool { return strings.HasPrefix(p, q+".") }
 
 // overlap: may a and b touch the same memory?
 func overlap(a, b *access) bool {
+	// "x.*": the whole state of object x
+	if strings.HasSuffix(a.path, ".*") || strings.HasSuffix(b.path, ".*") {
+		ba, bb := strings.TrimSuffix(a.path, ".*"), strings.TrimSuffix(b.path, ".*")
+		if strings.HasSuffix(a.path, ".*") && (bb == ba || prefixOf(ba, bb)) {
+			return true
+		}
+		if strings.HasSuffix(b.path, ".*") && (ba == bb || prefixOf(bb, ba)) {
+			return true
+		}
+		return false
+	}
 	switch {
 	case !a.elem && !b.elem:
 		if a.path == b.path {
